@@ -229,11 +229,18 @@ pub fn size_line(size: usize, st: ChunkStyle) -> Vec<u8> {
         4 => line.push_str(" ;n=v"),
         _ => {}
     }
-    line.into_bytes()
+    let mut line = line.into_bytes();
+    // obs-text inside a quoted extension value (valid per RFC 9112 7.1.1 / RFC 9110 5.6.4, not valid UTF-8)
+    match st.ext {
+        5 => line.extend_from_slice(b";note=\"caf\xe9\""),
+        6 => line.extend_from_slice(b";sig=\"\xff\xfe\x80\";x"),
+        _ => {}
+    }
+    line
 }
 
 pub fn chunk_style() -> BoxedStrategy<ChunkStyle> {
-    (0u8..3, prop_oneof![4 => Just(0u8), 1 => 1u8..=8], prop_oneof![3 => Just(0u8), 1 => 1u8..=4])
+    (0u8..3, prop_oneof![4 => Just(0u8), 1 => 1u8..=8], prop_oneof![3 => Just(0u8), 1 => 1u8..=6])
         .prop_map(|(hex, zeros, ext)| ChunkStyle { hex, zeros, ext })
         .boxed()
 }
